@@ -166,6 +166,46 @@ impl<'tcx> Ctx<'tcx> {
                 .unwrap();
                 if uv.promoted.is_some() {
                     write!(s, ",\"promoted\":{}", uv.promoted.unwrap().as_usize()).unwrap();
+                    // `&<integer literal>` promoted to a constant (the right-hand side of assert_eq!(x, 1)): the literal
+                    if uv.def.is_local() {
+                        if let ty::Ref(_, inner, _) = ty.kind() {
+                            if inner.is_integral() {
+                                let proms = tcx.promoted_mir(uv.def);
+                                if let Some(pb) = proms.get(uv.promoted.unwrap()) {
+                                    let mut lit: Option<(mir::Local, u128)> = None;
+                                    let mut refd: Option<mir::Local> = None;
+                                    let mut simple = true;
+                                    for bb in pb.basic_blocks.iter() {
+                                        for st in bb.statements.iter() {
+                                            if let StatementKind::Assign(bx) = &st.kind {
+                                                let (pl, rv) = &**bx;
+                                                match rv {
+                                                    Rvalue::Use(Operand::Constant(cc), ..) if pl.projection.is_empty() => {
+                                                        let tenv = TypingEnv::post_analysis(tcx, uv.def);
+                                                        if let Some(si) = cc.const_.try_eval_scalar_int(tcx, tenv) {
+                                                            if lit.is_some() { simple = false; }
+                                                            lit = Some((pl.local, si.to_bits(si.size())));
+                                                        } else { simple = false; }
+                                                    }
+                                                    Rvalue::Ref(_, _, rp) if pl.local == mir::RETURN_PLACE && rp.projection.is_empty() => {
+                                                        refd = Some(rp.local);
+                                                    }
+                                                    _ => { simple = false; }
+                                                }
+                                            }
+                                        }
+                                    }
+                                    if simple {
+                                        if let (Some((ll, v)), Some(rl)) = (lit, refd) {
+                                            if ll == rl {
+                                                write!(s, ",\"pint\":{}", esc(&format!("{}", v))).unwrap();
+                                            }
+                                        }
+                                    }
+                                }
+                            }
+                        }
+                    }
                 }
             }
             _ => {}
@@ -729,9 +769,26 @@ impl<'tcx> Ctx<'tcx> {
         let tcx = self.tcx;
         let mut statics = Vec::new();
         let mut fns = Vec::new();
+        let mut consts = Vec::new();
         for ldid in tcx.hir_crate_items(()).definitions() {
             let did = ldid.to_def_id();
             match tcx.def_kind(did) {
+                DefKind::Const { .. } => {
+                    // free (module-level) constants without generics: their evaluated value
+                    if tcx.generics_of(did).count() == 0 {
+                        let t = tcx.type_of(did).instantiate_identity().skip_norm_wip();
+                        let mut val = String::from("null");
+                        if let Ok(cv) = tcx.const_eval_poly(did) {
+                            val = esc(&format!("{}", mir::Const::Val(cv, t)));
+                        }
+                        consts.push(format!(
+                            "{{\"path\":{},\"ty\":{},\"val\":{}}}",
+                            esc(&tcx.def_path_str(did)),
+                            esc(&self.ty_str(t)),
+                            val
+                        ));
+                    }
+                }
                 DefKind::Static { mutability, .. } => {
                     let t = tcx.type_of(did).instantiate_identity().skip_norm_wip();
                     let typing_env = TypingEnv::post_analysis(tcx, did);
@@ -763,7 +820,7 @@ impl<'tcx> Ctx<'tcx> {
                 _ => {}
             }
         }
-        format!("{{\"statics\":[{}],\"fns\":[{}]}}", statics.join(","), fns.join(","))
+        format!("{{\"statics\":[{}],\"fns\":[{}],\"consts\":[{}]}}", statics.join(","), fns.join(","), consts.join(","))
     }
 }
 
